@@ -1,0 +1,39 @@
+//go:build verif
+
+// Contracts for the gvc verifier (/verif). Comment-only file: it adds no code to the package.
+package tmmirror
+
+// ---- future-round votes (C05): verified against the round's validator keys when the kernel knows them ----
+
+//@ iface pubKeyLoader.LoadPubKeys(l, ctx, hash)
+//@   modifies nothing
+//@ iface roundStateLoader.LoadRoundState(l, ctx, height, round)
+//@   modifies nothing
+
+// Requests to add future-round votes carry only verified proofs over the request's key set, for the request's height and round.
+//@ chaninv Mirror.addFuturePrevoteRequests(v): forall h string :: {rawdom(v.Prevotes)[h]} h in v.Prevotes ==>
+//@     mapvals(v.Prevotes)[h] != nil && ProofInv(mapvals(v.Prevotes)[h]) && pkeys(mapvals(v.Prevotes)[h]) == v.PubKeys &&
+//@     pmsg(mapvals(v.Prevotes)[h]) == prevoteMsg(v.H, v.R, h)
+//@ chaninv Mirror.addFuturePrecommitRequests(v): forall h string :: {rawdom(v.Precommits)[h]} h in v.Precommits ==>
+//@     mapvals(v.Precommits)[h] != nil && ProofInv(mapvals(v.Precommits)[h]) && pkeys(mapvals(v.Precommits)[h]) == v.PubKeys &&
+//@     pmsg(mapvals(v.Precommits)[h]) == precommitMsg(v.H, v.R, h)
+
+//@ func Mirror.handleFuturePrevoteProofs
+//@   property C05
+//@   option explicit-panics allowed
+//@   requires m.vs != nil && m.rs != nil && m.cmspScheme != nil && m.sigScheme != nil
+//@   requires p.Height == vlReq.H && p.Round == vlReq.R
+//@   modifies memory except Mirror
+//@   loop 1 invariant known-validator-keys-are-used: len(vlReq.VRV.ValidatorSet.PubKeys) > 0 ==> pubKeys == vlReq.VRV.ValidatorSet.PubKeys
+//@   loop 1 invariant full-map-verified: fullMap != nil && fresh(fullMap) && fullProofsOK(fullMap, pubKeys) && distinctProofs(fullMap) &&
+//@       (forall h string :: {rawdom(fullMap)[h]} h in fullMap ==> pmsg(mapvals(fullMap)[h]) == prevoteMsg(p.Height, p.Round, h))
+
+//@ func Mirror.handleFuturePrecommitProofs
+//@   property C05
+//@   option explicit-panics allowed
+//@   requires m.vs != nil && m.rs != nil && m.cmspScheme != nil && m.sigScheme != nil
+//@   requires p.Height == vlReq.H && p.Round == vlReq.R
+//@   modifies memory except Mirror
+//@   loop 1 invariant known-validator-keys-are-used: len(vlReq.VRV.ValidatorSet.PubKeys) > 0 ==> pubKeys == vlReq.VRV.ValidatorSet.PubKeys
+//@   loop 1 invariant full-map-verified: fullMap != nil && fresh(fullMap) && fullProofsOK(fullMap, pubKeys) && distinctProofs(fullMap) &&
+//@       (forall h string :: {rawdom(fullMap)[h]} h in fullMap ==> pmsg(mapvals(fullMap)[h]) == precommitMsg(p.Height, p.Round, h))
